@@ -123,6 +123,22 @@ def call_wrapped(prog_builder, st, kind, length=3):
         r2 = g.call(body, [r, y])
         g.set_output(g.mul(r2, x))
         return c.to_json(), [A((2,), st), A((2,), st)]
+    if kind == "iterate_assoc":
+        # associative, NON-commutative body (composition of affine maps x -> a*x+b), declared AssociativeOperation:
+        # in DepthOptimized modes the inliner uses prefix-sum trees (segment tree for length >= 16)
+        s = body.input(A((2,), st))
+        e = body.input(A((2,), st))
+        sa, sb = body.get(s, [0]), body.get(s, [1])
+        ea, eb = body.get(e, [0]), body.get(e, [1])
+        ns = body.stack([body.mul(sa, ea), body.add(body.mul(sa, eb), sb)], [2])
+        body.set_output(body.tuple([ns, s]))
+        body.ann = ["AssociativeOperation"]
+        g = c.graph()
+        x = g.input(A((2,), st))
+        v = g.input(A((length, 2), st))
+        it = g.iterate(body, x, g.a2v(v))
+        g.set_output(g.tuple([g.tuple_get(it, 0), g.v2a(g.tuple_get(it, 1))]))
+        return c.to_json(), [A((2,), st), A((length, 2), st)]
     # iterate: state s, input e -> (s*e + e, s)
     s = body.input(A((2,), st))
     e = body.input(A((2,), st))
@@ -189,6 +205,16 @@ def gen_cases(tier, seed, purpose="c01"):
                     cases.append(dict(id="W:%s:%s:%s:%s:%s" % (kind, st, "".join(str(o)[0] for o in owners), "".join(map(str, outs)) or "-", mode),
                                       template="W:" + kind, st=st, prog=prog, in_types=[t.to_json() for t in in_types],
                                       owners=owners, outs=outs, mode=mode, kind="ring", vseed=seed * 1000 + k, ref="S"))
+    # associative Iterate through the prefix-sum inliners (length 17 crosses the segment-tree switch)
+    for st in ["u8"] + (["i64"] if tier == "thorough" else []):
+        prog, in_types = call_wrapped(None, st, "iterate_assoc", length=17)
+        # the vector operand is public: with two private operands the 17 chained protocol products expand to 3^17 monomials
+        for ci, (owners, outs) in enumerate([([1, "public"], [2]), (["shared", "public"], [])]):
+            for mode in MODES:
+                k += 1
+                cases.append(dict(id="W:iterate_assoc17:%s:%s:%s:%s" % (st, "".join(str(o)[0] for o in owners), "".join(map(str, outs)) or "-", mode),
+                                  template="W:iterate_assoc17", st=st, prog=prog, in_types=[t.to_json() for t in in_types], owners=owners, outs=outs, mode=mode,
+                                  kind="ring", vseed=seed * 1000 + k, ref="S", n_evals=1, timeout=300))
     # random compositions
     n_rand = 40 if tier == "quick" else 200
     depth = (3, 6) if tier == "quick" else (3, 9)
